@@ -78,6 +78,12 @@ class ViewModule:
                 cond = "tag == %d" % r.choice([0, 1, 1, 2, 3])
             elif k < 0.5:
                 cond = r.choice(["tag > 2", "tag != 0", "tag < 100 && tag > 0", "tag == 1 || tag == 7"])
+            elif k < 0.65 and len(ints) >= 2:
+                # conjunction / disjunction over two DIFFERENT fields in either order: on a truncated buffer one
+                # side is unreadable while the other already decides the result (symmetric short-circuit)
+                a, b = r.sample(ints, 2)
+                cond = "%s %s %d %s %s %s %d" % (a, r.choice(["==", "!=", "<"]), r.choice([0, 1, 2, 7]), r.choice(["&&", "||"]),
+                                                 b, r.choice(["==", "!=", ">"]), r.choice([0, 1, 3, 7]))
             if cond:
                 L.append("  if %s:" % cond)
                 L.append("    %s [+%d]  %s  %s%s" % (pos, size, kind, name, bo.replace("\n    ", "\n      ")))
@@ -130,9 +136,23 @@ class ViewModule:
             L.append("  let v_sum = %s + %d" % (a, r.choice([1, 10, 100])))
             L.append("  let v_alias = %s" % a)
             L.append("  let v_bool = %s > 5 || tag == 0" % a)
+            if len(ints) >= 2:
+                b1, b2 = r.sample(ints, 2)
+                L.append("  let v_and = %s > 3 && %s == 0" % (b1, b2))
+                L.append("  let v_or = %s == 1 || %s != 2" % (b1, b2))
+                L.append("  let v_pick = (%s == 0 ? %s : 5) + 1" % (b2, b1))
             if r.random() < 0.5:
                 L.append("  let v_req = %s * 2" % a)
                 L.append("    [requires: this < 100]")
+        # virtual fields whose inferred bounds sit exactly on a C++ type boundary (2^31, 2^32, 2^63, 2^64)
+        if self.f("edge_virtual", 0.6):
+            L.append("  %d [+2]  UInt  e16" % (off + 72))
+            L.append("  %d [+4]  Int  e32s" % (off + 74))
+            L.append("  %d [+4]  UInt  e32u" % (off + 78))
+            for tmpl in r.sample(["(e16 + 1) * 32768", "e32s + 1", "0 - e32s", "e32u + 1", "(e32u + 1) * 2147483648",
+                                  "e32s * 2 + 1", "(e16 + 1) * 65536 - 1", "e32u * 4294967297",
+                                  "e32u - e16", "$max(e32s, e32u)", "(e32s < 0 ? 0 - e32s : e32s)"], r.randint(2, 5)):
+                L.append("  let ev%d = %s" % (len(L), tmpl))
         if self.f("requires", 0.3):
             L.append("  %d [+1]  UInt  checked" % (off + 70))
             L.append("    [requires: this != 13 && this < 250]")
